@@ -348,6 +348,312 @@ def confirm_compile(mods, rec):
     return False, detail, sig, rec
 
 
+
+# ---------------------------------------------------------------- routing
+class Timeout(Exception):
+    pass
+
+
+def with_timeout(seconds, f):
+    def h(signum, frame):
+        raise Timeout()
+    old = signal.signal(signal.SIGALRM, h)
+    signal.alarm(seconds)
+    try:
+        return f()
+    finally:
+        signal.alarm(0)
+        signal.signal(signal.SIGALRM, old)
+
+
+def gen_graph(mods, rng, big=False):
+    """A connected device graph: dict(kind, nodes(list of qubit specs), edges(list of index pairs), directed)."""
+    kind = rng.choice(['line', 'grid', 'tree', 'tree+chords', 'ring'])
+    if kind == 'line':
+        n = rng.randint(2, 8 if big else 5)
+        nodes = [('L', i) for i in range(n)]
+        edges = [(i, i + 1) for i in range(n - 1)]
+    elif kind == 'ring':
+        n = rng.randint(3, 8 if big else 5)
+        nodes = [('L', i) for i in range(n)]
+        edges = [(i, (i + 1) % n) for i in range(n)]
+    elif kind == 'grid':
+        r, c = rng.choice([(2, 2), (2, 3), (3, 3), (2, 4)] if big else [(2, 2), (2, 2), (1, 4), (2, 3)])
+        if not big and r * c > 5:
+            r, c = 2, 2
+        nodes = [('G', i, j) for i in range(r) for j in range(c)]
+        at = {(i, j): i * c + j for i in range(r) for j in range(c)}
+        edges = [(at[i, j], at[i, j + 1]) for i in range(r) for j in range(c - 1)] + [(at[i, j], at[i + 1, j]) for i in range(r - 1) for j in range(c)]
+    else:
+        n = rng.randint(3, 9 if big else 5)
+        nodes = [('N', i) for i in range(n)]
+        edges = [(rng.randrange(i), i) for i in range(1, n)]
+        if kind == 'tree+chords':
+            for _ in range(rng.randint(1, 3)):
+                a, b = rng.sample(range(n), 2)
+                if (a, b) not in edges and (b, a) not in edges:
+                    edges.append((a, b))
+    directed = rng.random() < 0.35
+    if directed:
+        de = []
+        for a, b in edges:
+            r = rng.random()
+            de += [(a, b)] if r < 0.35 else ([(b, a)] if r < 0.7 else [(a, b), (b, a)])
+        edges = de
+    return dict(kind=kind, nodes=nodes, edges=edges, directed=directed)
+
+
+def qubit_of(cirq, spec):
+    if spec[0] == 'L':
+        return cirq.LineQubit(spec[1])
+    if spec[0] == 'G':
+        return cirq.GridQubit(spec[1], spec[2])
+    return cirq.NamedQubit(f'n{spec[1]:02d}')
+
+
+def nx_graph(cirq, g):
+    import networkx as nx
+    G = nx.DiGraph() if g['directed'] else nx.Graph()
+    qs = [qubit_of(cirq, s) for s in g['nodes']]
+    G.add_nodes_from(qs)
+    G.add_edges_from((qs[a], qs[b]) for a, b in g['edges'])
+    return G, qs
+
+
+ROUTE_1Q = ['XPow', 'YPow', 'ZPow', 'HPow', 'PhasedX', 'PhasedXZ', 'Rx', 'Rz', 'Matrix1']
+ROUTE_2Q = ['CZPow', 'CXPow', 'SwapPow', 'ISwapPow', 'XXPow', 'ZZPow', 'FSim', 'PhasedISwap', 'Matrix2', 'CXPow', 'CZPow']
+
+
+def gen_route_circuit(mods, rng, k, measure):
+    """A circuit on k logical qubits (LineQubit 100+i) of one- and two-qubit operations."""
+    cirq = mods['cirq']
+    lq = [cirq.LineQubit(100 + i) for i in range(k)]
+    c = cirq.Circuit()
+    for _ in range(rng.randint(2, 12)):
+        two = k >= 2 and rng.random() < 0.6
+        fam = rng.choice(ROUTE_2Q if two else ROUTE_1Q)
+        if fam.startswith('Matrix'):
+            gate = matrix_gate(mods, rng, int(fam[-1]))
+        else:
+            gate = gates.draw(rng, fam).cirq_gate(cirq, mods)
+        op = gate.on(*rng.sample(lq, 2 if two else 1))
+        if rng.random() < 0.1:
+            op = op.with_tags('user_tag')
+        if rng.random() < 0.08 and len(op.qubits) <= 2:
+            op = cirq.CircuitOperation(cirq.FrozenCircuit(op, cirq.H(op.qubits[0])))
+        c.append(op, strategy=cirq.InsertStrategy.NEW if rng.random() < 0.15 else cirq.InsertStrategy.EARLIEST)
+    if measure:
+        m = rng.sample(lq, rng.randint(1, k))
+        if rng.random() < 0.5:
+            c.append(cirq.measure(*m, key='out'))
+        else:
+            c.append([cirq.measure(q, key=f'm{i}') for i, q in enumerate(m)])
+    return c, lq
+
+
+def route_case(mods, rec):
+    """Runs the router on the recorded case. Returns dict(graph, phys, circuit, routed, init, swap)."""
+    cirq = mods['cirq']
+    G, phys = nx_graph(cirq, rec['graph'])
+    circuit = cirq.read_json(json_text=rec['circuit_json'])
+    if rec['mapper'] == 'line':
+        mapper = cirq.LineInitialMapper(G)
+    elif rec['mapper'] == 'default':
+        mapper = None
+    else:
+        mapper = cirq.HardCodedInitialMapper({cirq.LineQubit(a): phys[b] for a, b in rec['mapping']})
+    router = cirq.RouteCQC(G)
+    routed, init, swap = with_timeout(rec.get('timeout', 20), lambda: router.route_circuit(
+        circuit, lookahead_radius=rec['lookahead'], tag_inserted_swaps=True, initial_mapper=mapper))
+    return dict(G=G, phys=phys, circuit=circuit, routed=routed, init=init, swap=swap)
+
+
+class OpTable:
+    """Identifies operations up to their qubits: index of (operation moved to placeholder qubits) in a table."""
+
+    def __init__(self, cirq):
+        self.cirq, self.items, self.keys = cirq, [], {}
+
+    def ident(self, op):
+        cirq = self.cirq
+        canon = op.transform_qubits({q: cirq.NamedQubit(f'_slot{i}') for i, q in enumerate(op.qubits)})
+        for i, c in enumerate(self.items):
+            if c == canon:
+                return i
+        self.items.append(canon)
+        return len(self.items) - 1
+
+    def key_ids(self, op):
+        cirq = self.cirq
+        ks = sorted(str(k) for k in (cirq.measurement_key_objs(op) | cirq.control_keys(op)))
+        return [self.keys.setdefault(k, len(self.keys)) for k in ks]
+
+
+def expected_original_ops(cirq, circuit):
+    """The operation stream the router is documented to route: as given, except that an intermediate measurement on
+    three or more qubits with the default key is split into single-qubit measurements (known contract detail)."""
+    out = []
+    n_m = len(circuit.moments)
+    for i, moment in enumerate(circuit):
+        for op in moment:
+            if cirq.num_qubits(op) > 2 and cirq.is_measurement(op) and i + 1 != n_m and op.gate.key in ('', cirq.measure(op.qubits).gate.key):
+                out.extend(cirq.measure(q) for q in op.qubits)
+            else:
+                out.append(op)
+    return out
+
+
+def certificate(mods, r):
+    """The route_ok call for one router result (Gallina text), or a string describing why it cannot even be written."""
+    cirq = mods['cirq']
+    init, swap, routed, G = r['init'], r['swap'], r['routed'], r['G']
+    logical = sorted(init.keys())
+    physical = sorted(init.values())
+    if len(set(physical)) != len(physical) or set(swap.keys()) != set(physical) or set(swap.values()) != set(physical):
+        return None, 'initial mapping is not injective or the swap map is not a permutation of the mapped physical qubits'
+    if any(p not in G.nodes for p in physical):
+        return None, 'initial mapping uses qubits that are not on the device'
+    li = {q: i for i, q in enumerate(logical)}
+    pi = {q: i for i, q in enumerate(physical)}
+    tbl = OpTable(cirq)
+    oop = lambda op, idx: f'mkO {tbl.ident(op)} {gates.nlist([idx[q] for q in op.qubits])} {gates.nlist(tbl.key_ids(op))}'
+    orig = []
+    for op in expected_original_ops(cirq, r['circuit']):
+        if any(q not in li for q in op.qubits):
+            return None, f'input operation {op} uses a qubit the initial mapping does not place'
+        orig.append(oop(op, li))
+    rt = []
+    tag = cirq.RoutingSwapTag()
+    for op in routed.all_operations():
+        if any(q not in pi for q in op.qubits):
+            return None, f'routed operation {op} acts on a qubit outside the mapped physical qubits'
+        if tag in op.tags:
+            g = op.gate
+            a = [pi[q] for q in op.qubits]
+            if g == cirq.SWAP:
+                rt.append(f'RSwap {a[0]} {a[1]}')
+            elif g == cirq.CNOT:
+                rt.append(f'RCx {a[0]} {a[1]}')
+            elif g == cirq.H:
+                rt.append(f'RHd {a[0]}')
+            else:
+                return None, f'operation {op} carries RoutingSwapTag but is neither SWAP nor a piece of the directed SWAP block'
+        else:
+            rt.append(f'ROp ({oop(op, pi)})')
+    edges = [(pi[a], pi[b]) for a, b in G.edges if a in pi and b in pi]
+    l2p0 = [pi[init[q]] for q in logical]
+    final = [pi[swap[p]] for p in physical]
+    lst = lambda xs: '[' + '; '.join(xs) + ']'
+    term = (f'route_ok {len(physical)} {lst(orig)} {lst(rt)} {gates.nlist(l2p0)} {gates.nlist(final)} '
+            f'{lst([f"({a}, {b})%nat" for a, b in edges])} {"true" if G.is_directed() else "false"}')
+    return term, None
+
+
+def relation_terms(mods, r):
+    """Both sides of DESIGN A.6 as Gallina unitaries: U_routed and P(swap_map) . U_ref over phys = sorted(device nodes)."""
+    cirq = mods['cirq']
+    phys = sorted(r['G'].nodes)
+    ref = r['circuit'].transform_qubits(lambda q: r['init'][q])
+    perm = [phys.index(r['swap'].get(p, p)) for p in phys]
+    n = len(phys)
+    sh = gates.nlist([2] * n)
+    ref_ops = gop_list(cirq, ref, phys)
+    rhs = f'(circ_unitary FOps {sh} ({ref_ops} ++ [(GPerm {gates.nlist(perm)}, {gates.nlist(range(n))})]))'
+    lhs = f'(circ_unitary FOps {sh} {gop_list(cirq, r["routed"], phys)})'
+    return lhs, rhs
+
+
+def route_oracle(mods, r):
+    """Spec-level oracle on the real output (numpy): clause that fails, or ''."""
+    cirq = mods['cirq']
+    G = r['G']
+    for op in r['routed'].all_operations():
+        if len(op.qubits) == 2 and not cirq.is_measurement(op):
+            a, b = op.qubits
+            if not (G.has_edge(a, b) or (not G.is_directed() and G.has_edge(b, a))):
+                return 'off-edge', f'{op} is not on a graph edge'
+        if any(q not in G.nodes for q in op.qubits):
+            return 'off-device', f'{op} uses a qubit that is not on the device'
+    if not cirq.has_unitary(r['circuit']):
+        return '', 'non-unitary circuit: only the discrete clauses are decided here'
+    phys = sorted(G.nodes)
+    ref = r['circuit'].transform_qubits(lambda q: r['init'][q])
+    perm = [phys.index(r['swap'].get(p, p)) for p in phys]
+    P = cirq.unitary(cirq.QubitPermutationGate(perm)) if len(perm) > 1 and perm != list(range(len(perm))) else np.eye(2 ** len(phys))
+    d = phase_dist(py_unitary(cirq, r['routed'], phys), P @ py_unitary(cirq, ref, phys))
+    if d > 2e-6:
+        return 'not-equivalent', f'U_routed differs from P(swap_map) . U_ref by {d:.3g} (up to phase)'
+    return '', f'deviation {d:.3g}'
+
+
+def confirm_route(mods, rec):
+    try:
+        r = route_case(mods, rec)
+    except Timeout:
+        return False, 'route_circuit did not return within the time limit', f'route:hang:{rec["graph"]["kind"]}:{"directed" if rec["graph"]["directed"] else "undirected"}', rec
+    except Exception as e:
+        return False, f'route_circuit raised {type(e).__name__}: {str(e)[:200]}', f'route:raises:{type(e).__name__}', rec
+    clause, detail = route_oracle(mods, r)
+    if clause:
+        return False, detail, f'route:{clause}:{"directed" if rec["graph"]["directed"] else "undirected"}', rec
+    return True, detail, None, rec
+
+
+def routing_stream(ctx, mods, checks, n_cases):
+    cirq = mods['cirq']
+    rng = ctx.rng
+    tagset = set()
+    for i in range(n_cases):
+        big = i % 3 == 2
+        g = gen_graph(mods, rng, big=big)
+        n = len(g['nodes'])
+        k = rng.randint(2, n) if n >= 2 else 1
+        measure = rng.random() < 0.25
+        circuit, lq = gen_route_circuit(mods, rng, k, measure)
+        mp = rng.choice(['hard', 'hard', 'line', 'default'])
+        if g['directed']:
+            mp = 'hard'           # the line mapper needs a strongly connected graph (nx.center); directed devices use a given placement
+        mapping = None
+        if mp == 'hard':
+            # a bijection between all device nodes and logical qubits (the circuit's plus spare ones): every placement is connected
+            nodes = list(range(n))
+            rng.shuffle(nodes)
+            mapping = [(100 + j, nodes[j]) for j in range(n)]
+        rec = dict(kind='route', graph=g, circuit_json=cirq.to_json(circuit), mapper=mp, mapping=mapping, lookahead=rng.choice([1, 2, 8, 8]),
+                   circuit=str(circuit)[:1200])
+        stream = 'route:' + ('directed' if g['directed'] else 'undirected')
+        before = cirq.to_json(circuit)
+        try:
+            r = route_case(mods, rec)
+        except Timeout:
+            ctx.count(stream, [g, before, mp], True)
+            ctx.violation(f'route:hang:{g["kind"]}:{"directed" if g["directed"] else "undirected"}', 'route_circuit did not return within 20 s', rec)
+            continue
+        except Exception as e:
+            ctx.count(stream, [g, before, mp], True)
+            ctx.violation(f'route:raises:{type(e).__name__}', f'route_circuit raised {type(e).__name__}: {str(e)[:200]} on a connected {g["kind"]} graph', rec)
+            continue
+        n_swaps = sum(1 for op in r['routed'].all_operations() if cirq.RoutingSwapTag() in op.tags and op.gate == cirq.SWAP)
+        n_blocks = sum(1 for op in r['routed'].all_operations() if cirq.RoutingSwapTag() in op.tags and op.gate == cirq.CNOT) // 3
+        ctx.count(stream, [g, before, mp, rec['lookahead'], mapping], n_swaps + n_blocks > 0,
+                  sample=dict(graph=g['kind'], nodes=n, directed=g['directed'], logical_qubits=k, mapper=mp, ops=sum(1 for _ in circuit.all_operations()),
+                              inserted_swaps=n_swaps, directed_swap_blocks=n_blocks, measured=measure))
+        if cirq.to_json(circuit) != before:
+            ctx.violation('route:input-modified', 'route_circuit modified its input circuit', rec)
+        term, why = certificate(mods, r)
+        if term is None:
+            holds, detail, sig, _ = confirm_route(mods, rec)
+            ctx.violation(sig or 'route:certificate-unwritable', f'router output cannot be expressed as a certificate: {why} ({detail})', rec)
+            continue
+        checks.append((stream + ':certificate', term, 'the routing certificate (two-qubit operations on edges, un-mapped stream trace-equivalent to the input, tracked mapping = reported swap map) is rejected',
+                       dict(signature=f'route:certificate:{"directed" if g["directed"] else "undirected"}', **rec)))
+        if not measure and n <= 5:
+            lhs, rhs = relation_terms(mods, r)
+            checks.append((stream + ':relation', f'fcll_close_phase {TOL} {lhs} {rhs}', 'U_routed differs from P(swap_map) . U_ref (DESIGN A.6)',
+                           dict(signature=f'route:relation:{"directed" if g["directed"] else "undirected"}', **rec)))
+            ctx.count(stream + ':relation', [g, before, mp, rec['lookahead'], mapping], n_swaps + n_blocks > 0)
+
+
 # ---------------------------------------------------------------- evaluation
 def evaluate(ctx, mods, checks, confirm):
     """checks: (stream, expr, desc, rep). Shards by size; a failing expression is confirmed on the real code by `confirm`."""
@@ -382,6 +688,8 @@ def confirm(mods, rep):
     k = rep.get('kind')
     if k == 'compile':
         return confirm_compile(mods, rep)
+    if k == 'route':
+        return confirm_route(mods, rep)
     raise KeyError(k)
 
 
@@ -395,6 +703,7 @@ def run(ctx):
     n = 1 if ctx.tier == 'quick' else 10
     checks = []
     compile_stream(ctx, mods, checks, 8 * n)
+    routing_stream(ctx, mods, checks, 90 * n)
     evaluate(ctx, mods, checks, confirm)
 
 
